@@ -117,8 +117,26 @@ func Time(t time.Time) *time.Time {
 	return &t
 }
 
+// Params joins the parameters into the string that retry and restart hand
+// back to the loader. Values the loader would split or drop (white space,
+// quotes, empty) are written in the quoted form it accepts.
 func Params(params []string) string {
-	return strings.Join(params, " ")
+	quoted := make([]string, 0, len(params))
+	for _, p := range params {
+		quoted = append(quoted, quoteParam(p))
+	}
+	return strings.Join(quoted, " ")
+}
+
+func quoteParam(p string) string {
+	name, value := "", p
+	if i := strings.Index(p, "="); i > 0 && !strings.ContainsAny(p[:i], " \t\"") {
+		name, value = p[:i+1], p[i+1:]
+	}
+	if value != "" && !strings.ContainsAny(value, " \t\r\n\"") {
+		return p
+	}
+	return name + `"` + strings.ReplaceAll(value, `"`, `\"`) + `"`
 }
 
 type PID int
